@@ -65,7 +65,7 @@ func altGroup(class string) string {
 }
 
 func protoRuns(name string) int {
-	q := map[string]int{"plain-1024": 3, "plain-1536": 3, "plain-2041": 4, "plain-2048": 3, "plain-3072": 2, "plain-4096": 1}[name]
+	q := map[string]int{"plain-1024": 3, "plain-1025": 2, "plain-1026": 1, "plain-1027": 1, "plain-1028": 1, "plain-1029": 1, "plain-1030": 1, "plain-1031": 1, "plain-1536": 3, "plain-2041": 4, "plain-2048": 3, "plain-3072": 2, "plain-4096": 1}[name]
 	return lib.Scale(q, 100*q)
 }
 
@@ -240,6 +240,10 @@ func protoOne(c protoCase) {
 		if sv.v.BitLen() <= 8*k.k && sv.v.Cmp(zi) != 0 {
 			alts = append(alts, alt{sv.n, k.fill(sv.v)})
 		}
+	}
+	for _, cb := range craftedBlindSigs(k, z, ss[0].sig, e, k.sk.D) {
+		alts = append(alts, alt{cb.class, cb.data})
+		lib.Count("proto:finalize-crafted-with-private-key")
 	}
 	alts = append(alts,
 		alt{"other-session", ss[1].blindSig},
